@@ -67,7 +67,10 @@ func (vfC20Hook) OnDispatchEnd(ctx context.Context, token HookToken, info Dispat
 func vfC20Features() []vfC20Feature {
 	return []vfC20Feature{
 		{"prefix", func(e *vfC20Env) { e.prefix = "/vgi"; e.h.SetPrefix("/vgi") }},
-		{"upload-provider", func(e *vfC20Env) { e.h.SetUploadURLProvider(vfC20Provider{}); e.h.SetMaxUploadBytes(1 << 20) }},
+		// every setter is a feature of its own: a value configured without the
+		// feature it usually accompanies is a legal configuration too
+		{"upload-provider", func(e *vfC20Env) { e.h.SetUploadURLProvider(vfC20Provider{}) }},
+		{"max-upload", func(e *vfC20Env) { e.h.SetMaxUploadBytes(1 << 20) }},
 		{"cors-star", func(e *vfC20Env) { e.cors = true; e.h.SetCorsOrigins("*") }},
 		{"cors-origin", func(e *vfC20Env) { e.cors = true; e.h.SetCorsOrigins("https://app.example") }},
 		{"max-request", func(e *vfC20Env) { e.h.SetMaxRequestBytes(4096) }},
